@@ -102,3 +102,24 @@ func SortedKeys(m map[string]int) []string {
 	sortStrings(keys)
 	return keys
 }
+
+// InQuotedScalar embeds YAML text as a double-quoted scalar with escaped line
+// breaks, InFoldedScalar as a folded block scalar: both are multi-line string
+// values whose lines do not map one to one to lines of the file.
+func InQuotedScalar(text string) string {
+	return "kind: ConfigMap\nrules: " + `"` + dqEscape(text, nil) + `"` + "\nother: 1\n"
+}
+
+func InFoldedScalar(text string, ind int) string {
+	lines := strings.Split(strings.TrimRight(text, "\n"), "\n")
+	var b strings.Builder
+	b.WriteString("data:\n  rules.yml: >\n")
+	for _, l := range lines {
+		if l == "" {
+			b.WriteString("\n")
+		} else {
+			b.WriteString(strings.Repeat(" ", 2+ind) + l + "\n\n")
+		}
+	}
+	return b.String()
+}
